@@ -597,6 +597,41 @@ func main() {
 		addStr("revertDiskVolMetaFailure", src(j.Body))
 	}
 
+	// Lock discipline of the controller's requests: the model takes one step per request because the
+	// code holds Controller.Lock across it (AddReplica: two critical sections).  For each method the
+	// lock statements in source order, and whether the first two statements are Lock + deferred Unlock.
+	{
+		revertf := parse(*repo, "controller/revert.go")
+		type mref struct {
+			f    *file
+			name string
+		}
+		for _, m := range []mref{{control, "Snapshot"}, {control, "Resize"}, {control, "WriteAt"}, {control, "ReadAt"}, {control, "Sync"},
+			{control, "Unmap"}, {control, "Start"}, {control, "RemoveReplica"}, {control, "SetReplicaMode"}, {rebuild, "VerifyRebuildReplica"},
+			{control, "RegisterReplica"}, {control, "addReplica"}, {revertf, "Revert"}, {control, "monitoring"}} {
+			fd := m.f.fn("Controller", m.name)
+			var ops []string
+			ast.Inspect(fd, func(x ast.Node) bool {
+				switch n := x.(type) {
+				case *ast.DeferStmt:
+					t := src(n.Call)
+					if t == "c.Unlock()" || t == "c.RUnlock()" {
+						ops = append(ops, "defer "+t)
+					}
+					return false
+				case *ast.ExprStmt:
+					t := src(n.X)
+					if t == "c.Lock()" || t == "c.Unlock()" || t == "c.RLock()" || t == "c.RUnlock()" {
+						ops = append(ops, t)
+					}
+				}
+				return true
+			})
+			whole := len(fd.Body.List) >= 2 && src(fd.Body.List[0]) == "c.Lock()" && src(fd.Body.List[1]) == "defer c.Unlock()" && len(ops) == 2
+			addStr("locks_"+m.name, fmt.Sprintf("%s whole=%v", strings.Join(ops, ";"), whole))
+		}
+	}
+
 	// ---- emit ---------------------------------------------------------------------------
 	var b strings.Builder
 	b.WriteString("/- GENERATED by /verif/extract from /repo's working tree. Do not edit. -/\nnamespace Jiva.Gen\n\n")
